@@ -50,6 +50,15 @@ CHECKS = {
 "C40": ("exploration", "deterministic simulation: seeded publish/ack/republish/delete histories; retained-set reference model",
         "Acknowledgements {valid, duplicate, unknown sequence, unknown subscription}, Republish {last, first, acknowledged, unknown}, subscription deletion; oracle: republished == original, unavailable after a Good ack, unknown ack -> BadSequenceNumberUnknown, retained while well below the retransmission capacity.",
         "Availability only asserted while the number of unconfirmed messages stays below 3 x subscriptions (capacity is 4 x).", "7/C40"),
+"C28": ("exploration", "deterministic simulation: seeded reference insert/delete/node-delete histories from 1-2 sessions (real services) and an application actor (AddressSpace API); triple-set reference model compared after every step",
+        "Oracle: forward references, inverse references and has_reference of every node of a small universe equal the model after each operation; opposite-direction pairs are generated deliberately.",
+        "Requests are serialised by the address-space write lock (interleaving at request granularity); observation restricted to the harness universe and three reference types.", "7/C28"),
+"C29": ("exploration", "deterministic simulation: seeded small reference graphs with aggregation cycles and shared children, then DeleteNodes via service or API; termination + dangling-reference oracle",
+        "Oracle: the call returns (worker process alive, watchdog), the node and everything it transitively aggregates are gone and no reference mentions a removed node. A stack overflow kills the worker and is reported as a crash with the plan as replay.",
+        "Crash detection relies on worker process isolation; delete_target_references=true.", "7/C29"),
+"C34": ("exploration", "deterministic simulation: seeded AddNodes/AddReferences/DeleteNodes/DeleteReferences histories with node ids planted just ahead of the server's id counter; result-vs-state oracle",
+        "Oracle: Good AddNodes => node exists and the given parent has a forward reference of the given type to it; any Bad item leaves the state digest unchanged; server-assigned ids never equal an existing node id; a non-local parent is never accepted.",
+        "State digest covers the harness universe (known, requested, returned and candidate ids).", "7/C34"),
 }
 
 def main():
